@@ -6,7 +6,15 @@
    code after fixes/F15.diff; false: the code as it stands).  [reads_only ... reads] is the hypothesis that the
    flight code reads the builder through the names in [reads] only, that "current_mass" is not one of them and
    the two mass attributes are (the lists are re-extracted from base.py / legacy.py on every run,
-   link/C17_Link.v). *)
+   link/C17_Link.v).
+
+   What the types assume.  The oracles are functions of the options, the mission and the attribute view of the builder:
+   everything else they depend on in the code (the performance-model object, the configuration singleton, the airports
+   table, the weather files, module-level state) is taken to be the same for equal arguments, i.e. pure and unchanged
+   between flights.  That is not proved; the extractor refuses module- and class-level state in the builder modules and
+   the harness compares every sequence with fresh builders and a fresh interpreter.  The context constructor receives the
+   builder (`builder=self`); it is given the view and [reads_only] requires that it, too, depends on it through [reads]
+   only (link/C17_Link.v: it reads `options` and nothing a flight writes). *)
 From Coq Require Import ZArith List String Bool.
 From AV Require Import model.C17_Model proofs.C17_Proofs.
 Import ListNotations.
@@ -15,7 +23,7 @@ Open Scope string_scope.
 (* for ALL histories of successful and failing flights, fly after the history = fly on a fresh builder, and the
    builder is idle afterwards (initial options, no context, nothing readable left behind) *)
 Theorem C17_fly_history_independent : forall ctor calc iter_once small adjust reads,
-  reads_only calc iter_once adjust reads ->
+  reads_only ctor calc iter_once adjust reads ->
   forall guarded gfix o ms m,
     let b := fst (run ctor calc iter_once small adjust guarded gfix (fresh o) ms) in
     snd (fly ctor calc iter_once small adjust guarded gfix b m) = snd (fly ctor calc iter_once small adjust guarded gfix (fresh o) m) /\
@@ -24,7 +32,7 @@ Proof. exact main_fly_history_independent. Qed.
 Print Assumptions C17_fly_history_independent.
 
 Theorem C17_history_is_fresh_flights : forall ctor calc iter_once small adjust reads,
-  reads_only calc iter_once adjust reads ->
+  reads_only ctor calc iter_once adjust reads ->
   forall guarded gfix o ms,
     snd (run ctor calc iter_once small adjust guarded gfix (fresh o) ms) =
     map (fun m => snd (fly ctor calc iter_once small adjust guarded gfix (fresh o) m)) ms.
@@ -33,7 +41,7 @@ Print Assumptions C17_history_is_fresh_flights.
 
 (* ... and for histories in which the caller also replaces the builder's options between flights *)
 Theorem C17_ops_history_independent : forall ctor calc iter_once small adjust reads,
-  reads_only calc iter_once adjust reads ->
+  reads_only ctor calc iter_once adjust reads ->
   forall guarded gfix o0 ops m,
     let b := fst (run_ops ctor calc iter_once small adjust guarded gfix (fresh o0) ops) in
     snd (fly ctor calc iter_once small adjust guarded gfix b m)
@@ -48,7 +56,7 @@ Proof. exact fly_ctx_none. Qed.
 Print Assumptions C17_no_context_left_behind.
 
 Theorem C17_failed_flight_leaves_builder_usable : forall ctor calc iter_once small adjust reads,
-  reads_only calc iter_once adjust reads ->
+  reads_only ctor calc iter_once adjust reads ->
   forall guarded gfix o bad m,
     let b := fst (fly ctor calc iter_once small adjust guarded gfix (fresh o) bad) in
     b_ctx b = None /\ b_opts b = o /\
@@ -58,7 +66,7 @@ Print Assumptions C17_failed_flight_leaves_builder_usable.
 
 (* the original reason surfaces (guarded finally) *)
 Theorem C17_original_error_surfaces : forall ctor calc iter_once small adjust gfix b m r,
-  ctor (b_opts b) m = inr r -> snd (fly ctor calc iter_once small adjust true gfix b m) = Raised (Reason r).
+  ctor (b_opts b) (view b) m = inr r -> snd (fly ctor calc iter_once small adjust true gfix b m) = Raised (Reason r).
 Proof. exact original_error_surfaces_ctor. Qed.
 Print Assumptions C17_original_error_surfaces.
 
@@ -69,12 +77,12 @@ Print Assumptions C17_never_an_unrelated_internal_error.
 
 (* the finding F15: as coded (unguarded `del self.ctx`) every constructor failure on an idle builder is masked *)
 Theorem C17_context_ctor_error_masked_before_fix : forall ctor calc iter_once small adjust gfix b m r,
-  b_ctx b = None -> ctor (b_opts b) m = inr r -> snd (fly ctor calc iter_once small adjust false gfix b m) = Raised AttrCtx.
+  b_ctx b = None -> ctor (b_opts b) (view b) m = inr r -> snd (fly ctor calc iter_once small adjust false gfix b m) = Raised AttrCtx.
 Proof. exact ctor_error_masked_as_coded. Qed.
 Print Assumptions C17_context_ctor_error_masked_before_fix.
 
 Theorem C17_original_error_surfaces_before_fix_refuted :
-  exists m, w_ctor w_opts m = inr 7%Z /\
+  exists m, w_ctor w_opts (view (fresh w_opts)) m = inr 7%Z /\
     snd (fly w_ctor w_calc w_iter w_small w_adjust false true (fresh w_opts) m) <> Raised (Reason 7%Z) /\
     snd (fly w_ctor w_calc w_iter w_small w_adjust false true (fresh w_opts) m) = Raised AttrCtx /\
     snd (fly w_ctor w_calc w_iter w_small w_adjust true true (fresh w_opts) m) = Raised (Reason 7%Z).
@@ -106,6 +114,38 @@ Theorem C17_calc_refusal_surfaces : forall calc iter_once small adjust gfix b e,
   prepare calc gfix b = inr e -> body calc iter_once small adjust gfix b = (b, Raised (Reason e)).
 Proof. exact calc_refusal_surfaces. Qed.
 Print Assumptions C17_calc_refusal_surfaces.
+
+(* a refusal by calc_starting_mass or by a flight iteration is the exception fly raises; and every reason fly raises is
+   one of: not-implemented, non-convergence, or a reason one of the oracles gave *)
+Theorem C17_calc_refusal_surfaces_from_fly : forall ctor calc iter_once small adjust gfix g b m c e,
+  ctor (b_opts b) (view b) m = inl c ->
+  prepare calc gfix (mkb (b_opts b) (b_own b) (Some (flight_ctx c m))) = inr e ->
+  snd (fly ctor calc iter_once small adjust g gfix b m) = Raised (Reason e).
+Proof. exact fly_calc_refusal_surfaces. Qed.
+Print Assumptions C17_calc_refusal_surfaces_from_fly.
+
+Theorem C17_iteration_refusal_surfaces_from_fly : forall ctor calc iter_once small adjust gfix g b m c d e,
+  ctor (b_opts b) (view b) m = inl c ->
+  prepare calc gfix (mkb (b_opts b) (b_own b) (Some (flight_ctx c m))) = inl d ->
+  o_optimize (b_opts d) = false -> snd (fly_iteration iter_once d) = inr e ->
+  snd (fly ctor calc iter_once small adjust g gfix b m) = Raised (Reason e).
+Proof. exact fly_first_iteration_refusal_surfaces. Qed.
+Print Assumptions C17_iteration_refusal_surfaces_from_fly.
+
+Theorem C17_every_reason_is_an_original_one : forall ctor calc iter_once small adjust gfix g b m e,
+  snd (fly ctor calc iter_once small adjust g gfix b m) = Raised (Reason e) ->
+  e = NOT_IMPLEMENTED \/ e = NO_CONVERGENCE \/ (exists v, ctor (b_opts b) v m = inr e) \/
+  (exists o v, calc o v = inr e) \/ (exists b0, snd (fly_iteration iter_once b0) = inr e).
+Proof. exact fly_later_iteration_refusal_surfaces. Qed.
+Print Assumptions C17_every_reason_is_an_original_one.
+
+(* with iteration enabled, the trajectory fly returns is the result of one of this flight's iterations whose residual
+   passed the tolerance test *)
+Theorem C17_fly_returns_converged : forall ctor calc iter_once small adjust gfix g b m t sm tf,
+  b_ctx b = None -> snd (fly ctor calc iter_once small adjust g gfix b m) = Flown t sm tf ->
+  exists d r, snd (fly_iteration iter_once d) = inl (t, r) /\ (o_iterate (b_opts b) = true -> small (b_opts b) r = true).
+Proof. exact fly_returns_converged. Qed.
+Print Assumptions C17_fly_returns_converged.
 
 (* mass iteration: a trajectory only with a residual that passed the tolerance test, otherwise an error *)
 Theorem C17_mass_iteration_tolerance_or_error : forall iter_once small adjust k b t r,
